@@ -3,6 +3,7 @@ import Asts.Proofs.GL2_Rc
 import Asts.Proofs.GL2_Store
 import Asts.Proofs.GL2_Removed
 import Asts.Proofs.GL2_C12
+import Asts.Proofs.GL2_Stable
 
 /-! # Glue2 — the monitor clauses that lived only in the drivers, as theorems about the model
 
@@ -20,6 +21,7 @@ for every input. Lemmas: `Asts/Proofs/GL2_*.lean`.
 | `C11.revowner` | `C11_revowner` | revision names unique |
 | `C18.adopted` | `C18_adopted` | revision names unique |
 | `C12.completion` (sync) | `C12_completion_sync` | none |
+| `C18.stable` (world) | `C18_stable` | revision names unique (or: every revision on the first probed name records the template) |
 
 Hypotheses, and why each is there:
 * `(i.pods.map (·.name)).Nodup` — pod names are unique in the pod cache (one namespace of the API). `podFaults` finds the
@@ -162,6 +164,44 @@ theorem C12_completion_sync (h : Hashing) (i : SyncIn) (plan : List Fault) (crea
     C12completionSync i (syncF h i plan) (syncF h i plan).observe creates = true :=
   C12completionSync_of_observed h i plan creates (fun st hst => Glue.sync_C12_completion h i plan st hst)
 
+/-! ## (f) `C18.stable` — rounds add no second revision recording the template -/
+
+/-- **one sync, when every revision on the first probed name records the template** (`ProbeOk`): every revision of the final
+    store is a revision of the input store (same name, same data) or records the template on that very name; a status the
+    sync writes carries the collision count it started from. Every hashing, world and fault plan. -/
+theorem one_sync_probe (h : Hashing) (i : SyncIn) (plan : List Fault)
+    (hP : ProbeOk (h.nameOf i.template (i.collisionCount.getD 0)) i.template i.store) :
+    (∀ y ∈ (syncF h i plan).store, FromOrProbe (h.nameOf i.template (i.collisionCount.getD 0)) i.template i.store y) ∧
+    ((syncF h i plan).status.isSome = true → (syncF h i plan).cc = some (i.collisionCount.getD 0)) :=
+  sync_probe h i plan hP
+
+/-- **the invariant of rounds** (`StableInv`): the template and the collision count the next sync starts from are as at the
+    start, every revision on the first probed name records the template, every revision recording the template bears a name
+    of `N0` — kept by every round, whatever its fault plan, as soon as the first probed name is one of `N0` -/
+theorem round_keeps_stable {h : Hashing} {T : String} {cc0 : Int} {N0 : List String} {W : SyncIn}
+    (hN : h.nameOf T cc0 ∈ N0) (inv : StableInv h T cc0 N0 W) (plan : List Fault) :
+    StableInv h T cc0 N0 (round h W plan).1 :=
+  round_inv hN inv plan
+
+/-- **`C18.stable`** from the probe hypothesis alone: for every hashing, world, fuel, silence counter and fault plan. None of
+    the guards of the clause other than `held` is used (paused, invalid selector, deleting, faulted: the conclusion holds all
+    the same), and `held` only to know that the probed name is a name of the initial store. -/
+theorem C18_stable_of_probe (h : Hashing) (i : SyncIn) (plan : List Fault) (fuel silent : Nat)
+    (hP : ProbeOk (h.nameOf i.template (i.collisionCount.getD 0)) i.template i.store) :
+    C18stable h i plan (runRounds h fuel silent i plan) = true :=
+  C18stable_of_probe h i plan fuel silent hP
+
+/-- **`C18.stable`**: the clause of the world driver is true on the model's run — every hashing, world, fuel, silence counter
+    and fault plan; revision names unique. -/
+theorem C18_stable (h : Hashing) (i : SyncIn) (plan : List Fault) (fuel silent : Nat) (hnd : SYa.StoreNamesOk i) :
+    C18stable h i plan (runRounds h fuel silent i plan) = true :=
+  C18stable_holds h i plan fuel silent hnd
+
+/-- the form the driver evaluates: the run from the initial world with an empty plan -/
+theorem C18_stable_run (h : Hashing) (i : SyncIn) (n : Nat) (hnd : SYa.StoreNamesOk i) :
+    C18stable h i [] (runRounds h n 0 i []) = true :=
+  C18stable_holds h i [] n 0 hnd
+
 /-! ## non-vacuity, and the excluded points
 
 `exW`: set `web`, 2 replicas, Parallel, both pods Failed. -/
@@ -245,5 +285,34 @@ example : ((syncF exH exOrph []).status.map (·.currentRev)) = some "web-a" ∧ 
       [.delete 0 (some 0), .create 0 "web-a", .delete 1 (some 1), .create 1 "web-a"] := by decide
 example : C12completionSync exOrph (syncF exH exOrph []) (syncF exH exOrph []).observe [] = true :=
   C12_completion_sync exH exOrph [] []
+
+/-! `C18.stable`, non-vacuously. `exHeld`: the template `a` is recorded by `web-a0`, the name probed first, still
+    controlled by somebody else (the built-in set before the garbage collector orphans its revision): invisible to the
+    listing, so every sync tries to create it, is answered AlreadyExists, reads it back and re-uses it. Evaluated with `#eval`
+    (`runRounds` goes through `applyPatches`, which calls `String.splitOn`): six rounds, each leaving the store
+    `[web-a0 ↦ a]`; the clause is `true`. -/
+private def exHeld : SyncIn :=
+  { exW with store := [exRev "web-a0" 1 "a" .other true false],
+             stored := { exW.stored with currentRev := "web-a0", updateRev := "web-a0" },
+             pods := [ { name := "web-0", pod := { exPod 0 0 .running with rev := "web-a0" }, owner := .self, selMatch := true, member := true },
+                       { name := "web-1", pod := { exPod 1 1 .running with rev := "web-a0" }, owner := .self, selMatch := true, member := true } ] }
+example : (exHeld.store.any fun r => r.name == exH.nameOf exHeld.template (exHeld.collisionCount.getD 0) && r.data == exHeld.template) = true ∧
+    SYa.StoreNamesOk exHeld := ⟨by decide, by unfold SYa.StoreNamesOk; decide⟩
+example : (syncF exH exHeld []).log =
+      ["list:revs", "list:revs", "list:revs", "list:revs", "create:rev:web-a0", "get:rev:web-a0", "updatestatus"] ∧
+    (syncF exH exHeld []).store.map (fun r => (r.name, r.data)) = [("web-a0", "a")] ∧
+    (syncF exH exHeld []).cc = some 0 := by decide
+
+/-! Unique revision names (more precisely `ProbeOk`) are necessary ON THE MODEL: `exDupProbe` holds two revisions named
+    `web-a0`, the first recording other data. `find?` meets the first, the loop moves on to collision count 1 and creates
+    `web-a1` — a second revision recording the template, under a new name. Evaluated with `#eval`: every round leaves
+    `[web-a0 ↦ x, web-a0 ↦ a, web-a1 ↦ a]` and `C18stable` is `false`. No API server holds two objects of one name: fed to
+    the real code (`tools/difftool.sh world`) the harness's API keeps only the first of the two, so the real world does not
+    hold the template at all and the case is not a realisable one (model and implementation differ on it). -/
+private def exDupProbe : SyncIn :=
+  { exHeld with store := [exRev "web-a0" 1 "x" .self true false, exRev "web-a0" 2 "a" .other true false] }
+example : ¬ SYa.StoreNamesOk exDupProbe := by unfold SYa.StoreNamesOk; decide
+example : (syncF exH exDupProbe []).store.map (fun r => (r.name, r.data)) =
+    [("web-a0", "x"), ("web-a0", "a"), ("web-a1", "a")] := by decide
 
 end Asts.Glue2
